@@ -17,7 +17,8 @@ DESC = {
  ('nonfinite', 'PATTERN DATA'): ('NaN or infinity is printed in the far-field table (negative far-field power, degenerate load coefficients, frequency 1e-300)', 'same validation as for format_float'),
  ('nonfinite', 'HEAD'): ('infinity is printed in the load listing for a non-finite Laplace coefficient', 'same validation as for format_float'),
  ('crash', 'f'): ('a frequency (or swept frequency) of 1e300 overflows in the frequency setter', 'the start frequency is validated for sign and finiteness only (fix 0c77081); an upper bound is a design decision'),
- ('crash', 'add'): ('a dimension of 1e-300 makes end points coincide after rounding and ends in AssertionError in Connected_Geobj.add', 'same validation as for format_float'),
+ ('crash', 'add'): ('a closed curve (360 degree arc) whose closing point is the end of an EARLIER-tagged wire ends in an uncaught AssertionError in Connected_Geobj.add -- the same defect as the recorded finding C12-closed-curve-on-earlier-end, seen from the command line',
+                    'Connected_Geobj keys its links and signs by object, one link per object and end; linking an object twice needs a redesign of that class (see C12-closed-curve-on-earlier-end)'),
  ('crash', 'compute_currents'): ('two identical wires give a singular system matrix; numpy.linalg.LinAlgError escapes main()', 'needs a diagnostic around the solver and a decision what to print'),
  ('crash', 'r'): ('insulation with relative permittivity 0 ends in ZeroDivisionError', 'one more validation site'),
  ('crash', '__init__'): ('skin effect with resistivity 0 ends in ZeroDivisionError', 'one more validation site'),
